@@ -25,6 +25,27 @@ NARROW = {}
 USQRT = z3.Function('SQRT', z3.RealSort(), z3.RealSort())
 
 
+BOOL_DECIDE = [None]      # hook: how a symbolic truth value becomes a path decision (default: ask the solver)
+
+
+def concretize_bools(a):
+    from vlib.symex import decide, SBool
+    dec = BOOL_DECIDE[0] or decide
+
+    def one(t):
+        if isinstance(t, SBool):
+            t = t.z
+        if isinstance(t, z3.ExprRef):
+            return bool(dec(t))
+        return bool(t)
+    if isinstance(a, np.ndarray):
+        out = np.zeros(a.shape, dtype=bool)
+        for idx in np.ndindex(*a.shape):
+            out[idx] = one(a[idx])
+        return out
+    return one(a)
+
+
 def narrow_fn(ld):
     k = np.dtype(ld).str.strip('<>|=')
     if k not in NARROW:
@@ -139,6 +160,11 @@ class Sym(np.ndarray):
             res = np.vectorize(usqrt, otypes=[object])(raws[0]) if np.size(raws[0]) else np.empty(np.shape(raws[0]), dtype=object)
         elif ufunc in (np.add, np.subtract, np.multiply, np.true_divide, np.negative):
             res = ufunc(*[_coerce(r) for r in raws])
+        elif ufunc in (np.bitwise_or, np.bitwise_and, np.logical_or, np.logical_and, np.logical_not, np.invert, np.bitwise_xor, np.logical_xor):
+            # Boolean combination of comparison results: every symbolic truth value becomes a path decision, then NumPy's
+            # own Boolean ufunc runs on concrete flags (which can also index, feed np.any / np.where, ...)
+            conc_ = [concretize_bools(r) for r in raws]
+            return ufunc(*conc_, **kw)
         elif ufunc in _CMP:
             op = _CMP[ufunc]
             a, b = [_coerce(r) for r in raws]
